@@ -213,6 +213,22 @@ pub fn templates() -> Vec<(String, Module)> {
         let kf = func(&["key", "value"], vec![sv("k", C::CreateTable), C::Repeat { n: b(C::Len(b(rv("value")))), i: Some("i".into()), body: b(C::Append(b(rv("i")), b(rv("k")))) }, C::Return(b(rv("k")))]);
         t(&format!("std-{f}-fresh-table-key"), c, vec![("kf", kf)]);
     }
+    // a key function that removes rows from the table it is called for, and allocates
+    for f in ["min_by_key", "max_by_key", "sorted_by_key"] {
+        let mut c = vec![sg("gt", C::CreateTable)];
+        for w in ["row zero", "row one", "row two", "row three"] {
+            c.push(C::Append(b(s(w)), b(rv("gt"))));
+        }
+        c.push(sg("r", call(&format!("std.{f}"), vec![C::Function("kf".into()), rv("gt")])));
+        c.push(sg("j", s("junk")));
+        c.push(log2("r", rv("r")));
+        c.push(log2("left", C::Len(b(rv("gt")))));
+        let kf = func(&["key", "value"], vec![sg("_sink", C::PopTable(b(rv("gt")))), sv("tmp", s("allocated in the key function")), sv("tmp2", C::CreateTable), C::Return(b(C::Len(b(rv("value")))))]);
+        t(&format!("std-{f}-key-function-pops-the-table"), c.clone(), vec![("kf", kf)]);
+        // ... and hands back the row's own value as the key
+        let kf = func(&["key", "value"], vec![sg("_sink", C::PopTable(b(rv("gt")))), sv("tmp", s("allocated in the key function")), sv("tmp2", C::CreateTable), C::Return(b(rv("value")))]);
+        t(&format!("std-{f}-key-function-pops-the-table-returns-the-value"), c, vec![("kf", kf)]);
+    }
     // a key function returning the identical object for every row (the native guards it once per row)
     for f in ["min_by_key", "max_by_key", "sorted_by_key"] {
         let mut c = strings.clone();
